@@ -61,7 +61,7 @@ class NetworkEnvelope:
                 "magic is not right {} vs {}".format(magic.hex(), expected_magic.hex())
             )
         # command 12 bytes, strip the trailing 0's using .strip(b'\x00')
-        command = s.read(12).strip(b"\x00")
+        command = s.read(12).rstrip(b"\x00")
         # payload length 4 bytes, little endian
         payload_length = little_endian_to_int(s.read(4))
         # checksum 4 bytes, first four of hash256 of payload
